@@ -148,6 +148,18 @@ class Intervals:
             if b[0] > 0 and a[0] >= 0:
                 return (a[0] // b[1], a[1] // b[0])
             return self.ty_range(t[3]) if len(t) > 3 else FULL
+        if k == "ibitand":
+            a, b = self.range(t[1]), self.range(t[2])
+            # x & m with a non-negative operand is in [0, that operand]
+            cands = [r[1] for r in (a, b) if r[0] >= 0]
+            if cands:
+                return (0, min(cands))
+            return self.ty_range(t[3]) if len(t) > 3 else FULL
+        if k == "ishr":
+            a = self.range(t[1])
+            if a[0] >= 0:
+                return (0, a[1])
+            return self.ty_range(t[3]) if len(t) > 3 else FULL
         if k == "ineg":
             a = self.range(t[1])
             return (-a[1], -a[0])
